@@ -241,7 +241,10 @@ pub fn c09() -> SimCheck {
     SimCheck {
         id: "C09",
         bias: Bias {
-            voters: vec![3, 5, 5],
+            // (1-voter clusters that grow: the voter set the leader counts with must follow promotions)
+            voters: vec![3, 5, 5, 1],
+            learners: 2,
+            w_join: 4,
             w_partition: 10,
             w_isolate: 6,
             w_reset: 6,
